@@ -910,7 +910,7 @@ fn cmd_batch(a: &[String]) -> i32 {
     let first: u64 = a[3].parse().expect("first");
     let n_sc: u64 = a[4].parse().expect("n_scenarios");
     let scheds: u64 = a[5].parse().expect("scheds");
-    let profile = match a[6].as_str() { "full" => Profile::Full, "light" => Profile::Light, "tiny" => Profile::Tiny, _ => { eprintln!("HARNESS-ERROR: bad profile"); return 2; } };
+    let profile = match a[6].as_str() { "full" => Profile::Full, "light" => Profile::Light, "tiny" => Profile::Tiny, "cover" => Profile::Cover, _ => { eprintln!("HARNESS-ERROR: bad profile"); return 2; } };
     let sigfile = &a[7];
     let mut bs = BatchStats::default();
     let mut sigs_all: HashSet<u64> = HashSet::new();
@@ -1138,6 +1138,33 @@ fn cmd_seamcheck() -> i32 {
                 let read = res.events.iter().any(|e| e.table as usize == tb && e.slot == d && e.kind == Kind::Read);
                 if !wrote || !read {
                     problems.push(format!("depth {} pass {}: no {} of the hooked {}[{}] slot although it was first-used (the tables no longer live in the hooked statics)", d, pass, if !wrote { "write" } else { "read" }, name, d));
+                }
+            }
+        }
+    }
+    // Replay stability: the same (scenario, schedule seed) must give the same execution whatever
+    // ran before it in this process.  If it does not, the code under test keeps state outside the
+    // two hooked tables that `verif_reset()` cannot reset (a global cache, a ready mask, ...):
+    // engine B's executions would depend on the process history and cannot be trusted.
+    if problems.is_empty() {
+        let mut list: Vec<Arc<Scenario>> = Vec::new();
+        for i in 0..6u64 {
+            list.push(Arc::new(generate(derive_seed(0x5eac, ENGINE_TAG, i), Profile::Cover)));
+            list.push(Arc::new(generate(derive_seed(0x5eac, ENGINE_TAG, 100 + i), Profile::Full)));
+        }
+        let mut first: Vec<(u64, u64, usize, [[u32; N_SLOTS]; 2], usize)> = Vec::new();
+        for round in 0..2 {
+            for (i, sc) in list.iter().enumerate() {
+                if reference_pass(sc).is_err() {
+                    continue;
+                }
+                let res = run_one(sc, Policy::Sticky { stay: 10 }, 77 + i as u64, 40);
+                let rec = (res.stats.signature, res.stats.outcome_digest, res.stats.steps, res.stats.constructed, res.violations.len());
+                if round == 0 {
+                    first.push(rec);
+                } else if i < first.len() && first[i] != rec {
+                    problems.push(format!("scenario {} does not replay identically within one process (first: {} steps / {} violations, again: {} steps / {} violations): state outside the hooked tables survives verif_reset", i, first[i].2, first[i].4, rec.2, rec.4));
+                    break;
                 }
             }
         }
